@@ -59,6 +59,14 @@ def run(chk):
         tgen_ok = False
         chk.log("translator cannot handle the current source: %s" % ex)
         chk.tgen_error = str(ex)
+    if tgen_ok:
+        try:
+            fpw, _ = gen_rng.run_fpenv(impl)
+            chk.cov["fp_control_writes"] = fpw
+        except c2lean.Untranslatable as ex:
+            tgen_ok = False
+            chk.log("translator cannot handle the current source: %s" % ex)
+            chk.tgen_error = str(ex)
     # ---- proofs ----------------------------------------------------------------------------
     proved = tgen_ok and chk.prove(extra_targets=DRIVERS)
     drivers_ok = proved
@@ -145,6 +153,13 @@ def run(chk):
         dist["thread-identity"] += 1
         if msg:
             failures.append(("threads", rngcorr.Scenario("threads", "conc", [sc.runs[0]], msg), msg))
+    # ---- which thread: main / pthread / worker of cimba_run_experiment / after an experiment (test) ---------
+    fc = [rngcorr.gen_fpctx(r) for _ in range(40 if quick else 600)]
+    for sc, msg in zip(fc, vlib.parallel_map(lambda s: rngcorr.judge_seedalone(c_exe, s), fc, workers=4)):
+        account(sc)
+        if msg:
+            failures.append(("seedalone", sc, msg))
+    samples.append(_sample(fc[0], limit=8))
     # ---- threads: all at once vs one after the other, on the implementation (test) -------------------
     th = [rngcorr.gen_threads(r, storm=(i % 8 == 0)) for i in range(160 if quick else 2000)]
     for sc, msg in zip(th, vlib.parallel_map(lambda s: rngcorr.judge_threads(c_exe, s), th, workers=4)):
@@ -201,7 +216,7 @@ def run(chk):
         "and calls after 1-3 different histories (earlier seeds, partially consumed bit caches, memoising samplers called with equal / "
         "different parameters, and with parameters that are different doubles less than 1e-9 apart), each on a fresh thread / all threads concurrently / one after another on the main thread; doubles compared "
         "as bit patterns; (c) 2-16 threads seeding themselves (every 8th scenario: re-seeding 100-300 times each) and drawing from all "
-        "samplers at once vs one after the other: every thread's output must be the same; (d) the history-free run of every fifth scenario of (b) on the main thread vs on a new thread. Non-trivial: seed-alone scenario with a non-empty history and a cache-using call (flip or a memoising sampler); "
+        "samplers at once vs one after the other: every thread's output must be the same; (d) the history-free run of every fifth scenario of (b) on the main thread vs on a new thread; (e) the same seed and calls — samplers at parameters whose results reach the subnormal range, the value-affecting bits of MXCSR, the next raw words — on the main thread before any experiment, on a plain pthread, in trials on cimba_run_experiment's worker threads, and on the main thread / a new pthread after the experiment. Non-trivial: seed-alone scenario with a non-empty history and a cache-using call (flip or a memoising sampler); "
         "correspondence stream with a re-seed after a draw or more than 64 flips in one call; every Spec comparison. Distinct by content hash.")
     chk.cov["input_distribution"] = dict(sorted(dist.items()))
     chk.cov["corpus"] = n_corpus
@@ -209,16 +224,27 @@ def run(chk):
     chk.cov["test_evidence_only"] = ["floating-point samplers (seed-alone differential on the implementation)",
                                      "implementation vs Spec stream (the theorem chain is Generated = Spec by proof, implementation = Generated by T-gen + T-corr)"]
     # ---- verdicts ------------------------------------------------------------------------------------
+    fpnote = ""
+    bad_fp = [w for w in chk.cov.get("fp_control_writes", []) if w["kind"] != "fesetround" and int(w["value"], 16) & 0xE040]
+    if bad_fp:
+        fpnote = ("; regenerated from the source: %s:%s sets MXCSR to %s, which changes rounding control / flush-to-zero / "
+                  "denormals-are-zero (theorem fp_control_preserves_values fails)" % (bad_fp[0]["file"], bad_fp[0]["function"], bad_fp[0]["value"]))
+
     def still_fails(s):
         return rngcorr.judge_seedalone(c_exe, s) is not None
     sa_fail = [(sc, msg) for k, sc, msg in failures if k == "seedalone"]
     spec_fail = [(sc, msg) for k, sc, msg in failures if k == "spec"]
     if sa_fail:
         sc, msg = min(sa_fail[:20], key=lambda x: (sum(len(r_) for r_ in x[0].runs), x[0].mode != "seq"))
+        if sc.mode == "ctx":
+            # prefer a replay in which a SAMPLER's value differs over one in which only the MXCSR probe does
+            cand = rngcorr.Scenario(sc.kind, sc.mode, [[o for o in r_ if o != "fpenv"] for r_ in sc.runs], sc.note)
+            if still_fails(cand):
+                sc = cand
         small = rngcorr.shrink(sc, still_fails)
         msg2 = rngcorr.judge_seedalone(c_exe, small) or msg
         model = ""
-        if drivers_ok and all(not o.startswith("dist") for run_ in small.runs for o in run_):
+        if drivers_ok and small.mode != "ctx" and all(o.split()[0] not in ("dist", "distd", "fpenv", "ctx") for run_ in small.runs for o in run_):
             rc, runs, _ = rngcorr.run_lean(small)
             if rc == 0 and len(runs) == len(small.runs):
                 ams = [rngcorr.after_mark(x) for x in runs]
@@ -231,6 +257,8 @@ def run(chk):
                       "the lines after `mark` must be identical in all runs" % (len(sa_fail), msg2, model))
         chk.violation("values after seeding depend on %s: %s%s" % (
             "what other threads do at the same time (or on the history of the thread)" if small.mode == "conc"
+            else ("which thread makes the calls (main thread / plain pthread / worker thread of cimba_run_experiment / after an "
+                  "experiment)%s" % fpnote) if small.mode == "ctx"
             else "what the thread did before seeding", msg2, model), small.text(), True)
     th_fail = [(sc, msg) for k, sc, msg in failures if k == "threads"]
     if th_fail and not sa_fail:
